@@ -275,3 +275,24 @@ func (c *Cluster) Leader() int {
 	}
 	return best
 }
+
+// AddNode prepares and starts one more node process (id = number of nodes so far + 1) that joins the
+// running cluster (JoinCluster = true, told about every existing peer and itself). It returns the id
+// and the raft URL to announce with "rconf add <id> <url>".
+func (c *Cluster) AddNode() (int, string, error) {
+	ports, err := FreePorts(2)
+	if err != nil {
+		return 0, "", err
+	}
+	id := len(c.Nodes) + 1
+	nd := &Node{ID: id, Port: ports[0], RaftPort: ports[1], Dir: filepath.Join(c.Dir, fmt.Sprintf("n%d", id)), join: true}
+	c.Nodes = append(c.Nodes, nd)
+	c.peers = append(c.peers, fmt.Sprintf("http://127.0.0.1:%d", ports[1]))
+	if err := c.writeConfig(nd, append([]string{}, c.peers...), true); err != nil {
+		return 0, "", err
+	}
+	if err := c.StartNode(id); err != nil {
+		return 0, "", err
+	}
+	return id, c.peers[id-1], nil
+}
